@@ -179,6 +179,20 @@ func dependsOn(v, target ssa.Value, depth int) bool {
 			return true
 		}
 	}
+	// the elements of a variadic call travel through a local array: f(a, b...) = f(new [n]T{a, b}[:])
+	if al, isAlloc := v.(*ssa.Alloc); isAlloc && al.Referrers() != nil {
+		for _, u := range *al.Referrers() {
+			ia, isIA := u.(*ssa.IndexAddr)
+			if !isIA || ia.Referrers() == nil {
+				continue
+			}
+			for _, u2 := range *ia.Referrers() {
+				if st, isSt := u2.(*ssa.Store); isSt && st.Addr == ssa.Value(ia) && dependsOn(st.Val, target, depth+1) {
+					return true
+				}
+			}
+		}
+	}
 	return false
 }
 
